@@ -179,6 +179,7 @@ func (root *Root) resolve(
 			var err error
 			if result, err = co.CoerceOut(obj); err != nil {
 				ea = append(ea, resWarn(field.line, field.col, "%s", err))
+				result = nil
 			}
 		}
 	}
